@@ -75,6 +75,7 @@ type Inst struct {
 	pendDsc string
 	keys    []string // universe "cf/key"
 	hist    []write  // every successful client write, in order
+	lastOp  string   // class of the last applied operation (RichSig: the step after which a failure shows)
 }
 
 type write struct {
@@ -232,6 +233,7 @@ func (in *Inst) value(kind string) []byte {
 const farFuture = uint64(1) << 40
 
 func (in *Inst) Apply(op string) (bool, error) {
+	in.lastOp = opClass(op)
 	if !isClient(op) {
 		in.nMaint++
 		var gcBefore string
@@ -362,7 +364,19 @@ func (in *Inst) noteGC(op string, before string, err error) {
 	moved := bf[1] != af[1]
 	switch {
 	case err != nil:
-		OpCount["gc-effect:error"]++
+		what := "error"
+		if moved {
+			what = "error-after-moving-live"
+		}
+		if removed {
+			what += "+removed-file"
+		}
+		OpCount["gc-effect:"+what]++
+		msg := err.Error()
+		if i := strings.LastIndex(msg, ": "); i >= 0 {
+			msg = msg[i+2:]
+		}
+		OpCount["gc-error:"+msg]++
 	case removed && moved:
 		OpCount["gc-effect:moved-live+removed-file"]++
 	case removed:
@@ -449,6 +463,11 @@ func (in *Inst) checkIter(asc bool) (string, string) {
 		}
 		e := item.Entry()
 		if e.Version != math.MaxUint64 {
+			continue
+		}
+		if e.Meta&kv.BitDelete != 0 {
+			// a tombstone surfaced as an item (delete bit set, no value): not a value; whether
+			// iterators must hide tombstones is the iterator property's business (C06)
 			continue
 		}
 		mk := cfName(e.CF) + "/" + string(e.Key)
@@ -589,10 +608,15 @@ type container struct {
 // Units (separated by "|") are what a point lookup consults one after the other, stopping
 // at the first unit with a hit: the active memtable, each immutable memtable newest first,
 // L0 as a whole (newest table first), then each level as a whole (ingest tables, then main
-// tables). mech=first-hit-unit-lacks-newest-version: the first unit holding any version <= pv
-// does not hold the model's answer (a newer container holds only older versions: out-of-order
-// version writes); mech=within-unit-or-tie: it does hold it (wrong choice inside the unit or
-// among equal versions); mech=phantom: the model has no version <= pv at all.
+// tables). step = class of the operation after which the failure showed.
+// mech=first-hit-unit-lacks-newest-version: the first unit holding any version <= pv does not
+// hold the model's answer (a newer container holds only older versions: out-of-order version
+// writes); mech=tie:<classes>: several containers of that unit hold the wanted version and the
+// wrong one was chosen; mech=stored-copy-wrong:<class>: exactly one container of that unit holds
+// the wanted version, i.e. the stored copy itself is the wrong write (an earlier merge/rewrite
+// kept the older duplicate); mech=phantom: the model has no version <= pv at all;
+// mech=merge-tie:<classes> / merge-single:<class> / merge-none: iterator (merged view) failure
+// with the sources holding the wanted version listed in the iterator's source order.
 func (in *Inst) layoutSig(mk string, pv uint64, lookup bool) string {
 	parts := strings.SplitN(mk, "/", 2)
 	cfn := map[string]int{"d": 0, "l": 1, "w": 2}[parts[0]]
@@ -671,8 +695,8 @@ func (in *Inst) layoutSig(mk string, pv uint64, lookup bool) string {
 	mech := ""
 	var us []string
 	for _, u := range units {
-		var cstr []string
-		hit, hasWant := false, false
+		var cstr, holders []string
+		hit := false
 		for _, c := range u {
 			if len(c.vers) == 0 {
 				continue
@@ -684,7 +708,7 @@ func (in *Inst) layoutSig(mk string, pv uint64, lookup bool) string {
 					hit = true
 				}
 				if present && v == wantV {
-					hasWant = true
+					holders = append(holders, c.class)
 				}
 			}
 			cstr = append(cstr, c.class+"@"+strings.Join(vs, ","))
@@ -698,10 +722,13 @@ func (in *Inst) layoutSig(mk string, pv uint64, lookup bool) string {
 		}
 		us = append(us, name)
 		if mech == "" && hit {
-			if hasWant {
-				mech = "within-unit-or-tie"
-			} else {
+			switch len(holders) {
+			case 0:
 				mech = "first-hit-unit-lacks-newest-version"
+			case 1:
+				mech = "stored-copy-wrong:" + holders[0]
+			default:
+				mech = "tie:" + strings.Join(holders, "+")
 			}
 		}
 	}
@@ -711,13 +738,47 @@ func (in *Inst) layoutSig(mk string, pv uint64, lookup bool) string {
 	}
 	switch {
 	case !lookup:
-		mech = "merge"
+		// iterator (merged view): which sources hold the wanted version, in the order the
+		// iterator lists its sources (memtable, immutables OLDEST first, L0 newest first, levels)
+		var holders []string
+		add := func(c *container) {
+			for _, v := range c.vers {
+				if present && v == wantV {
+					holders = append(holders, c.class)
+				}
+			}
+		}
+		for _, u := range units[:1] {
+			for _, c := range u {
+				if c.class == "mem" {
+					add(c)
+				}
+			}
+		}
+		for _, c := range imms {
+			add(c)
+		}
+		for _, u := range units {
+			for _, c := range u {
+				if c.class != "mem" && c.class != "imm" {
+					add(c)
+				}
+			}
+		}
+		switch len(holders) {
+		case 0:
+			mech = "merge-none"
+		case 1:
+			mech = "merge-single:" + holders[0]
+		default:
+			mech = "merge-tie:" + strings.Join(holders, "+")
+		}
 	case !present:
 		mech = "phantom"
 	case mech == "":
 		mech = "missing-everywhere"
 	}
-	return fmt.Sprintf("probe=%s want=%s mech=%s layout=%s", verName(pv), want, mech, strings.Join(us, "|"))
+	return fmt.Sprintf("step=%s probe=%s want=%s mech=%s layout=%s", in.lastOp, verName(pv), want, mech, strings.Join(us, "|"))
 }
 
 func (in *Inst) Key() string {
